@@ -477,6 +477,16 @@ AnyP::Uri::parse(const HttpRequestMethod& method, const SBuf &rawUrl)
 
                 /* we moved in-place, so truncate the actual hostname found */
                 *dst = '\0';
+
+                // the bracketed text must be a terminated IPv6 address literal
+                Ip::Address literal;
+                if (*src != ']' ||
+                        strspn(foundHost, "0123456789abcdefABCDEF:.") != strlen(foundHost) ||
+                        !literal.fromHost(foundHost) || !literal.isIPv6()) {
+                    debugs(23, 3, "Invalid IP literal in URL '" << url << "'");
+                    return false;
+                }
+
                 ++dst;
 
                 /* skip ahead to either start of port, or original EOS */
